@@ -13,11 +13,17 @@ import (
 // answer is arbitrary within the descriptor: transport error, any status, non-JSON, JSON of the wrong
 // shape, an array of symbolic length, null elements, elements with errors.
 
-func verifRequestBody(r *http.Request) []byte
 
 type vBody struct{ data []byte }
 
-func (b *vBody) Read(p []byte) (int, error) { return 0, io.EOF }
+func (b *vBody) Read(p []byte) (int, error) {
+	if len(b.data) == 0 {
+		return 0, io.EOF
+	}
+	n := copy(p, b.data)
+	b.data = b.data[n:]
+	return n, nil
+}
 func (b *vBody) Close() error               { return nil }
 
 var v9N int
@@ -98,7 +104,7 @@ var v9Tags = []string{"q0", "q1", "q2", "q3"}
 func VerifDownstreamAnswers() {
 	n := verifChoice("n", verifParam("nmax", 2)+1)
 	v9N = n
-	q := &MultiOpQueryer{url: "u", client: &http.Client{}, maxBatchSize: 10}
+	q := &MultiOpQueryer{url: "u", client: &http.Client{Transport: vNativeTransport{verifDo}}, maxBatchSize: 10}
 	inputs := make([]*requests.Request, n)
 	for i := range inputs {
 		inputs[i] = &requests.Request{Query: v9Tags[i]}
